@@ -215,4 +215,14 @@ theorem C02_fn_validate_request {K : Type} (ptf : Nat → Nat) (k : K)
     rcases hcs : checkSigs commitOk nHtlc sigs with _ | _ | _ | _ | _ <;> cases payOk <;>
       (by_cases e : n = c.next <;> simp [e])
 
+-- non-vacuity of the hypotheses of the composition theorems: next = 2, validate 2 with three HTLCs and three signatures
+example :=
+  C02_fn_validate_request (K := Unit) (fun n => n) () (fun _ _ => ((), ())) (fun _ _ => ((), ()))
+    (fun _ _ _ _ _ _ => contentRules true "") { slot := .ready, next := 2, cur := some 1 } 2 0 6 true "" true true 3
+    [true, true, true] rfl (by decide) rfl (by decide)
+example :=
+  C02_fn_signRedundant (K := Unit) (fun n => n) () (fun _ _ => ((), ())) (fun _ _ => ((), ()))
+    (fun _ _ _ _ _ _ => contentRules true "") { slot := .ready, next := 2, cur := some 1 } 1 0 1 true "" rfl (by decide) rfl
+    (by decide)
+
 end VlsModel.Props.C02Fn
